@@ -700,16 +700,32 @@ func (cr *c05Run) combo(qy *c05Query, st [][2]string, path string, B, k int, coq
 	var chunkTerms []string
 	var chunkReps []c05Replay
 	var chunkNT []bool
+	var vecTerms, vecFail []string
+	var vecReps []c05Replay
+	var vecNT []bool
 	defer func() {
-		idx = e.add(term, fRep, nontrivial && modelled)
+		idx = e.add(c05vOld(term), fRep, nontrivial && modelled)
 		if failed {
 			e.fail(idx, fWhat, fSig, fRep)
 		}
 		for i := range chunkTerms {
-			e.add(chunkTerms[i], chunkReps[i], chunkNT[i])
+			e.add(c05vOld(chunkTerms[i]), chunkReps[i], chunkNT[i])
+		}
+		for i := range vecTerms {
+			vi := e.add(vecTerms[i], vecReps[i], vecNT[i])
+			if vecFail[i] != "" {
+				e.fail(vi, vecFail[i], "C05/cache-visible", vecReps[i])
+			}
 		}
 	}()
 
+	// ---- the chunk caches: ExecuteBatch sequences on one context, and ProjectionPlan.Batch drains
+	if modelled && proj != nil && wexpr != nil {
+		cr.vecCases(qa, proj, wexpr, st, B, rp, namesTerm, fieldsTerm, whereTerm, true,
+			func(t string, r c05Replay, nt bool, failWhat string) {
+				vecTerms, vecReps, vecNT, vecFail = append(vecTerms, t), append(vecReps, r), append(vecNT, nt), append(vecFail, failWhat)
+			})
+	}
 	// ---- V1: cache on = cache off, per iteration mode
 	for _, aliased := range []bool{true, false} {
 		for _, batch := range []bool{false, true} {
@@ -1054,7 +1070,7 @@ func (cr *c05Run) cyclicCases(c *runCtx) {
 			rp.Got = fmt.Sprintf("%s (child process: %v)", res, err)
 			rp.Want = "the statement is rejected (a field defined in terms of itself has no value), or runs to the same result in every mode"
 		}
-		idx := e.add(c05Trivial, rp, false)
+		idx := e.add(c05vOld(c05Trivial), rp, false)
 		e.count("self_reference:" + strings.ToLower(strings.Fields(res + " crashed")[0]))
 		if bad {
 			e.fail(idx, "a statement whose field is defined in terms of itself does not terminate / crashes / depends on the cache", "C05/self-reference", rp)
@@ -1066,11 +1082,12 @@ func runC05(c *runCtx) error {
 	// (the shared generator's streams for seeds s and s+1 are the same stream shifted by one draw:
 	// spread the seeds far apart)
 	r := newRng(c.seed*1000003 + 0xC05)
-	header := "From Coq Require Import List String ZArith.\nFrom KV Require Import Base.Bytes Model.Ast Model.Value Corr.EvalCommon Corr.C05.\nImport ListNotations.\nOpen Scope string_scope.\n"
+	header := "From Coq Require Import List String ZArith.\nFrom KV Require Import Base.Bytes Model.Ast Model.Value Corr.EvalCommon Corr.C05.\nImport C05.Vec.\nImport ListNotations.\nOpen Scope string_scope.\n"
 	e := newEmitter(c.out, "C05", header, 150)
 	e.m.Rule = "19 fixed statement shapes (aliases used in WHERE, in join/ilist/list arguments, under !, as IN-list items and BETWEEN bounds, under [i], alias of alias, use before definition, a name defined twice, ORDER BY, LIMIT, GROUP BY with aggregates of aliases) x batch size B in {1,2,3,32} x stores whose first k scanned pairs fail the filter for every k in 0..B+1 (B=32, quick tier: k in {0,1,2,31,32,33}) followed by an accepted, a rejected, an accepted and 0-2 mixed pairs x access paths {full, prefix, range, point reads}; plus seeded random statements with 1-3 aliased fields over typed definitions; every combination is run row-at-a-time and in batches, cache on and off, with the names and with the definitions written out; non-trivial = some pair rejected and some returned, with an alias used in WHERE; distinct = distinct (statement, store) terms"
 	cr := &c05Run{e: e}
 	cr.cyclicCases(c)
+	cr.vecCollisionCases()
 	Bs := []int{1, 2, 3, 32}
 	ks := func(B int) []int {
 		if B == 32 && !c.thorough() {
@@ -1162,4 +1179,287 @@ func runC05(c *runCtx) error {
 		}
 	}
 	return e.flush()
+}
+
+// ---------------------------------------------------------------- batch part: the chunk caches (Corr/C05.v, Module Vec)
+
+// c05vOld wraps a case of the row / bookkeeping kinds into the extended case type.
+func c05vOld(term string) string { return "COld (" + term + ")" }
+
+func c05vErrTerm(ctor string, err error) string {
+	o := coqObs(nil, err, "")
+	return "(" + ctor + strings.TrimSuffix(strings.TrimPrefix(o, "(OErr"), ")") + ")"
+}
+
+// c05vUnits: what the scan node reads, in order: pairs for cursor scans, listed keys (present or
+// not) for point reads.
+type c05vUnit struct {
+	kv      [2]string
+	present bool
+}
+
+func c05vUnits(proj *kvql.ProjectionPlan, st [][2]string) []c05vUnit {
+	var units []c05vUnit
+	if mg, ok := proj.ChildPlan.(*kvql.MultiGetPlan); ok {
+		have := map[string]string{}
+		for _, kv := range st {
+			have[kv[0]] = kv[1]
+		}
+		for _, k := range mg.Keys {
+			v, ok := have[k]
+			units = append(units, c05vUnit{[2]string{k, v}, ok})
+		}
+		return units
+	}
+	for _, kv := range st {
+		units = append(units, c05vUnit{kv, true})
+	}
+	return units
+}
+
+func c05vSlots(units []c05vUnit) string {
+	p := make([]string, len(units))
+	for i, u := range units {
+		if u.present {
+			p[i] = "Some (" + coqStr(u.kv[0]) + ", " + coqStr(u.kv[1]) + ")"
+		} else {
+			p[i] = "None"
+		}
+	}
+	return coqList(p)
+}
+
+// c05vRefills cuts the units into the refills of a scan's Batch: sizes[i % len(sizes)] units per
+// refill, the missing ones dropped, empty refills skipped.
+func c05vRefills(units []c05vUnit, sizes []int) [][][2]string {
+	var out [][][2]string
+	for pos, i := 0, 0; pos < len(units); i++ {
+		n := sizes[i%len(sizes)]
+		if n < 1 {
+			n = 1
+		}
+		end := pos + n
+		if end > len(units) {
+			end = len(units)
+		}
+		var ch [][2]string
+		for _, u := range units[pos:end] {
+			if u.present {
+				ch = append(ch, u.kv)
+			}
+		}
+		if len(ch) > 0 {
+			out = append(out, ch)
+		}
+		pos = end
+	}
+	return out
+}
+
+// c05vExecSeq: ExecuteBatch of e on the chunks, one after the other, on ONE context.
+func c05vExecSeq(e kvql.Expression, chunks [][][2]string, cache bool) (terms []string, text string) {
+	kvql.EnableFieldCache = cache
+	ctx := kvql.NewExecuteCtx()
+	var sb strings.Builder
+	for _, ch := range chunks {
+		chunk := make([]kvql.KVPair, len(ch))
+		for i, kv := range ch {
+			chunk[i] = kvql.NewKVPStr(kv[0], kv[1])
+		}
+		vals, err, pn := func() (vals []any, err error, pn string) {
+			defer func() {
+				if r := recover(); r != nil {
+					pn = fmt.Sprint(r)
+				}
+			}()
+			vals, err = e.ExecuteBatch(chunk, ctx)
+			return
+		}()
+		switch {
+		case pn != "":
+			terms = append(terms, "VPanic")
+			sb.WriteString("PANIC " + pn + "\n")
+			return terms, sb.String()
+		case err != nil:
+			terms = append(terms, c05vErrTerm("VErr", err))
+			sb.WriteString("ERROR " + errClass(err) + "\n")
+			return terms, sb.String()
+		}
+		p := make([]string, len(vals))
+		for i, v := range vals {
+			p[i] = coqCanon(v)
+			sb.WriteString(canonCol(v) + "\x1f")
+		}
+		sb.WriteString("\n")
+		terms = append(terms, "(VCol "+coqList(p)+")")
+	}
+	return terms, sb.String()
+}
+
+// c05vDrain: a fresh plan for q, its ProjectionPlan's Batch until no rows, on one context.
+func c05vDrain(q string, st [][2]string, B int, cache bool) (term string, text string, ok bool) {
+	kvql.PlanBatchSize, kvql.EnableFieldCache = B, cache
+	plan, err := kvql.NewOptimizer(q).BuildPlan(newStore(st))
+	if err != nil {
+		return "", "", false
+	}
+	proj, isProj := plan.(*kvql.ProjectionPlan)
+	if !isProj {
+		return "", "", false
+	}
+	ctx := kvql.NewExecuteCtx()
+	var batches []string
+	var sb strings.Builder
+	for call := 0; call < 10000; call++ {
+		rows, err, pn := func() (rows [][]kvql.Column, err error, pn string) {
+			defer func() {
+				if r := recover(); r != nil {
+					pn = fmt.Sprint(r)
+				}
+			}()
+			rows, err = proj.Batch(ctx)
+			return
+		}()
+		if pn != "" {
+			return "DPanic", "PANIC " + pn, true
+		}
+		if err != nil {
+			return c05vErrTerm("DErr", err), "ERROR " + errClass(err), true
+		}
+		if len(rows) == 0 {
+			return "(DBatches " + coqList(batches) + ")", sb.String(), true
+		}
+		batches = append(batches, c05CoqRows(rows))
+		sb.WriteString(strings.Join(canonRows(rows), "\n") + "\n--\n")
+	}
+	return "DPanic", "TIMEOUT", true
+}
+
+// vecCases emits, for one statement on one store at batch size B, ONE case (CVec): the WHERE
+// clause's ExecuteBatch over the scan's refills on one shared context (and, for some, over
+// refills of irregular sizes), and the ProjectionPlan.Batch drain, each with the cache on and off.
+// verdict: with names free of '-' a difference between on and off is reported as a violation.
+func (cr *c05Run) vecCases(qa string, proj *kvql.ProjectionPlan, wexpr kvql.Expression, st [][2]string, B int,
+	rp c05Replay, namesTerm, fieldsTerm, whereTerm string, verdict bool,
+	addCase func(string, c05Replay, bool, string)) {
+	e := cr.e
+	units := c05vUnits(proj, st)
+	seqs := [][]int{{B}}
+	if B <= 3 && len(units) > 3 && (len(units)+B)%3 == 0 {
+		seqs = append(seqs, []int{1, 3, 2})
+	}
+	r := rp
+	r.Mode, r.Cache = c05Mode(true, B)+": ExecuteBatch of the WHERE clause on successive chunks sharing one context; ProjectionPlan.Batch until empty", "on / off"
+	what := ""
+	var seqTerms []string
+	multi := false
+	for _, sizes := range seqs {
+		chunks := c05vRefills(units, sizes)
+		if len(chunks) == 0 {
+			continue
+		}
+		on, onText := c05vExecSeq(wexpr, chunks, true)
+		off, offText := c05vExecSeq(wexpr, chunks, false)
+		chs := make([]string, len(chunks))
+		for i, ch := range chunks {
+			chs[i] = coqPairs(ch)
+		}
+		seqTerms = append(seqTerms, fmt.Sprintf("(%s, %s, %s)", coqList(chs), coqList(on), coqList(off)))
+		if onText != offText {
+			e.count("vec_seq_on_differs_from_off")
+			if r.Got == "" {
+				r.Got, r.Want = c05Short(onText), c05Short(offText)
+				r.What = fmt.Sprintf("chunk sizes %v: got = columns per chunk with the cache on, want = with the cache off", sizes)
+			}
+			if verdict {
+				what = "ExecuteBatch on chunks sharing one context returns other columns with the field cache on than with it off"
+			}
+		}
+		e.count("vec_seq")
+		e.count(fmt.Sprintf("vec_seq_chunks=%d", c05vMin(len(chunks), 6)))
+		multi = multi || len(chunks) > 1
+	}
+	onT, onText, ok1 := c05vDrain(qa, st, B, true)
+	offT, offText, ok2 := c05vDrain(qa, st, B, false)
+	if !ok1 || !ok2 {
+		return
+	}
+	if onText != offText {
+		e.count("vec_drain_on_differs_from_off")
+		if r.Got == "" {
+			r.Got, r.Want = c05Short(onText), c05Short(offText)
+			r.What = "got = batches with the cache on, want = with the cache off"
+		}
+		if verdict && what == "" {
+			what = "switching the field cache changes the batches ProjectionPlan.Batch returns"
+		}
+	}
+	e.count("vec_cases")
+	if strings.Count(onText, "--") > 1 {
+		e.count("vec_drain_several_batches")
+	}
+	term := fmt.Sprintf("CVec %s %s %s %d %s %s %s %s", namesTerm, fieldsTerm, whereTerm, B, c05vSlots(units),
+		coqList(seqTerms), onT, offT)
+	addCase(term, r, multi && strings.Count(onText, "--") > 0, what)
+}
+
+func c05vMin(a, b int) int {
+	if a < b {
+		return a
+	}
+	return b
+}
+
+// vecCollisionCases: field names containing '-'.  The pinned plan.go keyed the per-chunk entries
+// by the text name-key, so (a, "b-c") and (a-b, "c") were one entry (wrong rows / index out of
+// range with the cache on; Properties/C05.v cache_invisible_batch_text_key_refuted is the witness
+// for that keying).  Since the fix the key is injective (Corr/C05.v c05v_keyfix = true) and these
+// statements get the verdict of cache_invisible_batch like all others.
+func (cr *c05Run) vecCollisionCases() {
+	e := cr.e
+	type cc struct {
+		q  string
+		st [][2]string
+	}
+	cases := []cc{
+		{"select key, value as a, upper(key) as `a-b` where a = '9' | `a-b` = 'C'", [][2]string{{"b-c", "1"}, {"c", "2"}, {"d", "3"}}},
+		{"select key, int(value) as n, strlen(key) as `n-k` where n > 100 | `n-k` = 1", [][2]string{{"k-x", "5"}, {"x", "7"}, {"y", "8"}}},
+		{"select strlen(key) as `n-k`, int(value) as n, key where `n-k` = 1 | n > 100", [][2]string{{"k-x", "5"}, {"x", "7"}, {"y", "8"}}},
+		{"select key, upper(value) as `u-1`, lower(value) as u where u = 'zz' | `u-1` ^= 'B'", [][2]string{{"1-k", "a"}, {"k", "b"}, {"l", "B"}}},
+		{"select key, value as `a-`, upper(value) as `a` where `a-` = 'w' | a = 'V'", [][2]string{{"-k", "v"}, {"k", "w"}}},
+		// a '-' in a name without two entries sharing a text
+		{"select key, int(value) as `n-1` where `n-1` > 2", [][2]string{{"k1", "1"}, {"k2", "5"}, {"k3", "2"}, {"k4", "7"}}},
+	}
+	for _, c := range cases {
+		for _, B := range []int{1, 2, 3} {
+			kvql.PlanBatchSize, kvql.EnableFieldCache = B, true
+			plan, err := kvql.NewOptimizer(c.q).BuildPlan(newStore(c.st))
+			if err != nil {
+				e.count("vec_collision_rejected")
+				continue
+			}
+			proj, _ := plan.(*kvql.ProjectionPlan)
+			if proj == nil {
+				continue
+			}
+			wexpr, _ := c05ScanFilter(proj.ChildPlan)
+			if wexpr == nil || proj.AllFields {
+				continue
+			}
+			fieldsTerm, ok1 := c05CoqExprs(proj.Fields)
+			whereTerm, ok2 := coqExpr(wexpr)
+			if !ok1 || !ok2 {
+				e.m.OutOfModel++
+				continue
+			}
+			rp := c05Replay{Tag: "dash-in-field-name", Query: c.q, Store: c.st, Path: "full", B: B}
+			before := e.m.Dist["vec_seq_on_differs_from_off"] + e.m.Dist["vec_drain_on_differs_from_off"]
+			e.count("vec_dash_name_statements")
+			cr.vecCases(c.q, proj, wexpr, c.st, B, rp, coqStrList(proj.FieldNames), fieldsTerm, whereTerm, false,
+				func(t string, r c05Replay, nt bool, _ string) { e.add(t, r, nt) })
+			if e.m.Dist["vec_seq_on_differs_from_off"]+e.m.Dist["vec_drain_on_differs_from_off"] > before {
+				e.count("vec_dash_name_cache_visible")
+			}
+		}
+	}
 }
